@@ -20,6 +20,8 @@ import AnnetModel.Lemmas.Device
 import AnnetModel.Lemmas.Converge
 import AnnetModel.Lemmas.ConvergeExample
 import AnnetModel.Lemmas.ConvergeNested
+import AnnetModel.Lemmas.ConvergeNestedPaths
+import AnnetModel.Lemmas.ConvergeNestedExample
 
 /-! OBLIGATIONS
 Annet.Device.C01_put_refines
@@ -33,6 +35,8 @@ Annet.Device.C01_flat_converges
 Annet.Device.C01_flat_converges_lines
 Annet.Device.C01_flat_converges_nonvacuous
 Annet.Device.C01_nested_converges
+Annet.Device.C01_nested_converges_paths
+Annet.Device.C01_nested_converges_nonvacuous
 Annet.Device.C01_full_false_permanent
 Annet.Device.C01_full_false_ignore_changes
 Annet.Device.C01_flat_default_witness_converges
@@ -170,9 +174,8 @@ exactly one rule at their level with one line per (rule, key): executing the PAT
 computes (`ConvergeNested.applyTree`: a leaf item is a leaf command, a block item enters — creating if
 absent — the block and executes its children there) on `old` yields, at every level of every block,
 exactly the lines `new` holds (`SameC`).  2675 lines of proof in `Lemmas/ConvergeNested*.lean`.
-What is still decided by the tie and the oracle only: the formatter's linearisation of the patch tree into
-command paths with exit words (C09 proves text = paths; `Device.execPath` on those paths is checked against
-`applyTree` by the correspondence), `%ordered` / `%rewrite` / `%global` rules, and chains. -/
+What is still decided by the tie and the oracle only: `%ordered` / `%rewrite` / `%global` rules, custom logics and
+chains (the linearisation into command paths is `C01_nested_converges_paths` below). -/
 
 theorem C01_nested_converges (v : Vendor) (env : Env) (rules : PRules) (ordering : List ORule) (old new : Cfg)
     (r : Api.Result)
@@ -181,6 +184,31 @@ theorem C01_nested_converges (v : Vendor) (env : Env) (rules : PRules) (ordering
     (hres : Api.deviceMode Patch.runLogic v rules ordering true old new = .ok r) :
     ConvergeNested.SameC rules (.mk (ConvergeNested.applyTree env rules r.patch old.kids)) new :=
   ConvergeNested.Lemmas.nested_converges v env rules ordering old new r hr hgo hgn hc hp hres
+
+/-- The same for the COMMAND PATHS the formatter sends (`ConvergeNested.treePaths`: each row, the paths of its
+children below it, then `[row, exit]` — what `BlockExitFormatter.cmd_paths` produces, compared with the real
+`cmd_paths` on every run): executing them one by one on the device specification (`Device.applyCmds`, i.e.
+`execPath` with its descent from the top for every command) makes the device agree with `new`.  The link
+`applyCmds env rules (treePaths exit t) dev = applyTree …` is `ConvergeNested.Lemmas.applyCmds_treePaths`; that the
+pipeline's patch tree meets its side conditions (no row is an exit word or a removal of a known row, no
+`%rewrite`) is `pipeline_pathOK`. -/
+theorem C01_nested_converges_paths (v : Vendor) (env : Env) (exit : String) (rules : PRules) (ordering : List ORule)
+    (old new : Cfg) (r : Api.Result)
+    (hr : ConvergeNested.NestedRules rules) (hgo : ConvergeNested.GoodC rules old) (hgn : ConvergeNested.GoodC rules new)
+    (hc : ConvergeNested.CmdsOKAll v env rules) (hp : Converge.NoPin ordering) (hex : env.exits.contains exit = true)
+    (hres : Api.deviceMode Patch.runLogic v rules ordering true old new = .ok r) :
+    ConvergeNested.SameC rules (applyCmds env rules (ConvergeNested.treePaths exit r.patch) old) new :=
+  ConvergeNested.Lemmas.nested_converges_paths v env exit rules ordering old new r hr hgo hgn hc hp hex hres
+
+/-- Non-vacuity of `C01_nested_converges`: a three-level instance (interfaces with sub-blocks; one block removed,
+one added, one changed at two levels, one unchanged) meets every hypothesis, so the theorem applies to it. -/
+theorem C01_nested_converges_nonvacuous :
+    ∃ r, Api.deviceMode Patch.runLogic ConvergeNested.Example.v ConvergeNested.Example.rules
+        ConvergeNested.Example.ordering true ConvergeNested.Example.old ConvergeNested.Example.new = .ok r ∧
+      ConvergeNested.SameC ConvergeNested.Example.rules
+        (.mk (ConvergeNested.applyTree ConvergeNested.Example.env ConvergeNested.Example.rules r.patch
+          ConvergeNested.Example.old.kids)) ConvergeNested.Example.new :=
+  ConvergeNested.Example.nested_converges_instance
 
 /-! ### the full-strength statement is false by design for `permanent` and `ignore_changes` -/
 
